@@ -808,6 +808,8 @@ class Executor:
             return FnItem(t)
         if k == 'fnitem':
             return FnItem(c.value)
+        if k == 'zststruct':
+            return Struct(norm_type(c.ty), ())
         if k == 'alloc':
             name = self.mir.allocs_static.get(c.value)
             if name is None:
